@@ -333,7 +333,8 @@ pub fn main(tier: &str, seed: u64, outdir: &str) {
         let mut spec = OrbitSpec::random(&mut r, false);
         spec.amp = *r.pick(&[0.1, 1.0, 3.0]);
         spec.turn_len = *r.pick(&[2.0, 4.0, 8.0, 1e9]);
-        let maxdepth = if thorough { 1 + r.below(4) } else { 1 + r.below(3) };
+        // depth 4 makes the exact enumeration (all coin x Bernoulli paths from 31 starts) take hours
+        let maxdepth = 1 + r.below(3);
         let o = opts(maxdepth, 0, true, 0);
         let width = (1i64 << maxdepth) - 1;
         // kernel rows for every start in a window; K[s][i]
